@@ -231,6 +231,31 @@ static void end_all_evt(void *subject, void *object)
 /* After the dump: end the run (an event stops every process that is still running, the queue is run dry - nothing prints any
  * more), then give every object a second life the way a model that reuses its objects between replications does - terminate,
  * initialize again - and print the state the fresh object reports (Z lines; the model prints what a fresh object must report). */
+static int conds_gone = 0;
+
+/* Every subscription made at set-up is taken back (each must be reported as found), the conditions are destroyed, and every
+ * guard is signalled once more: a guard that still lists a destroyed condition as its observer would now call into freed memory. */
+static void retire_conditions(void)
+{
+    if (conds_gone) return;
+    conds_gone = 1;
+    for (int i = 0; i < nsub; i++) {
+        struct cmb_resourceguard *g = sub_guard(i);
+        if (g != NULL && subs[i].c < ncond && !cmb_condition_unsubscribe(conds[subs[i].c], g)) {
+            fflush(stdout);
+            fprintf(stderr, "ERROR: simdrv: cmb_condition_unsubscribe(condition %d, guard of kind %d index %d) reports that the condition "
+                            "was not registered, but it was subscribed at set-up\n", subs[i].c, subs[i].kind, subs[i].idx);
+            exit(4);
+        }
+    }
+    for (int i = 0; i < ncond; i++) cmb_condition_destroy(conds[i]);
+    for (int i = 0; i < nres; i++) (void)cmb_resourceguard_signal(&res[i]->guard);
+    for (int i = 0; i < npool; i++) (void)cmb_resourceguard_signal(&pools[i]->guard);
+    for (int i = 0; i < nbuf; i++) { (void)cmb_resourceguard_signal(&bufs[i]->front_guard); (void)cmb_resourceguard_signal(&bufs[i]->rear_guard); }
+    for (int i = 0; i < noq; i++) { (void)cmb_resourceguard_signal(&oqs[i]->front_guard); (void)cmb_resourceguard_signal(&oqs[i]->rear_guard); }
+    for (int i = 0; i < npq; i++) { (void)cmb_resourceguard_signal(&pqs[i]->front_guard); (void)cmb_resourceguard_signal(&pqs[i]->rear_guard); }
+}
+
 static void second_life(void)
 {
     /* whatever still runs while the queue is run dry (a capped run has start events pending) must not print */
@@ -250,6 +275,7 @@ static void second_life(void)
     (void)dup2(saved, STDOUT_FILENO);
     close(saved); close(devnull);
     if (cmb_event_queue_count() != 0u) { printf("Z the run could not be ended\n"); return; }
+    retire_conditions();
     for (int i = 0; i < nres; i++) {
         cmb_resource_terminate(res[i]); cmb_resource_initialize(res[i], "r");
         printf("Z res %d inuse=%" PRIu64 " hist=%" PRIu64 "\n", i, cmb_resource_in_use(res[i]),
@@ -285,11 +311,7 @@ static void teardown(void)
     long m = 0;
     while (cmb_event_execute_next()) { if (++m >= DISPATCH_CAP) break; }
     for (int p = 0; p < nproc; p++) cmb_process_terminate(&procs[p]);
-    for (int i = 0; i < nsub; i++) {
-        struct cmb_resourceguard *g = sub_guard(i);
-        if (g != NULL && subs[i].c < ncond) (void)cmb_condition_unsubscribe(conds[subs[i].c], g);
-    }
-    for (int i = 0; i < ncond; i++) cmb_condition_destroy(conds[i]);
+    retire_conditions();
     for (int i = 0; i < nres; i++) cmb_resource_destroy(res[i]);
     for (int i = 0; i < npool; i++) cmb_resourcepool_destroy(pools[i]);
     for (int i = 0; i < nbuf; i++) cmb_buffer_destroy(bufs[i]);
